@@ -1607,9 +1607,28 @@ func (r *Run) storeElem(st *State, fr *Frame, a *Addr, v Val, in ssa.Instruction
 		e.fail("store through a slice value with unknown origin at %s (value semantics of slices)", e.posOf(in))
 		return
 	}
+	oldAt := sv.OrgAt
 	r.writeBack(st, fr, sv, func(i T, old T) T {
 		return Ite(Eq(i, App(SInt, "+", sv.OrgOff, a.Idx)), vt, old)
 	}, in)
+	// remember what was stored at a literal index of a local array / slice (identity of closures in variadic calls)
+	if sv.Org != nil && sv.Org.Kind == ACell {
+		if cur, ok := st.Cells[sv.Org.Cell].(*SliceV); ok && cur.At != oldAt {
+			k1, e1 := strconv.ParseInt(a.Idx.S, 10, 64)
+			k0, e0 := strconv.ParseInt(sv.OrgOff.S, 10, 64)
+			if e.litElems == nil {
+				e.litElems = map[string]map[int64]Val{}
+			}
+			tab := map[int64]Val{}
+			for k, v := range e.litElems[oldAt] {
+				tab[k] = v
+			}
+			if e1 == nil && e0 == nil {
+				tab[k0+k1] = v
+				e.litElems[cur.At] = tab
+			}
+		}
+	}
 }
 
 // writeBack rewrites the contents of the origin of sv with upd(i, old(i)).
